@@ -174,6 +174,14 @@ func (e *env) produce(producer string, cells []vxh.AppCell) (string, bool) {
 	case "StyledString.Encode":
 		ss := &vaxis.StyledString{Cells: vc}
 		return ss.Encode(), true
+	case "EncodeCells+EncodeCells":
+		// two encoded strings one after the other (styled lines of a log or
+		// pager): the reset that ends the first is followed by more text
+		if len(vc) < 2 {
+			return "", false
+		}
+		h := (len(vc) + 1) / 2
+		return vaxis.EncodeCells(vc[:h]) + vaxis.EncodeCells(vc[h:]), true
 	case "renderer":
 		// one row of the screen; cells beyond the width are not rendered
 		total := 0
@@ -261,7 +269,7 @@ func (e *env) consume(consumer, s string, cols int) ([]decoded, string, string) 
 	return out, "", ""
 }
 
-var producers = []string{"EncodeCells", "StyledString.Encode", "renderer"}
+var producers = []string{"EncodeCells", "StyledString.Encode", "renderer", "EncodeCells+EncodeCells"}
 var consumers = []string{"ParseStyledString", "NewStyledString", "emulator", "refterm"}
 
 func classOf(c refterm.Color) string {
